@@ -47,8 +47,10 @@ def classify(h, rec):
   for a, flag in zip(res.stored, res.direct):
     name, tid = a[0], a[1]
     mixed.add(flag)
-    if tid in summary_tables and name in ("AddRecord", "BulkAddRecord", "RemoveRecord", "BulkRemoveRecord",
-                                          "UpdateRecord", "BulkUpdateRecord"):
+    # maintenance of summary-table ROWS = adding / removing them (an update of a summary table's
+    # group-by cell can also be the reference clean-up of a user's removal, which the property
+    # does not classify; updates of its formula columns fall under the next clause)
+    if tid in summary_tables and name in ("AddRecord", "BulkAddRecord", "RemoveRecord", "BulkRemoveRecord"):
       if flag:
         h._find("C31", "summary-table row maintenance marked direct", "%s %s" % (name, tid), rec)
       continue
@@ -70,29 +72,47 @@ def classify(h, rec):
       if flag:
         h._find("C31", "column conversion while entering data marked direct", "%s %s" % (name, tid), rec)
       continue
-    if tid in requested and tid not in summary_tables and not tid.startswith("_grist_") \
-        and name in ("AddRecord", "BulkAddRecord", "RemoveRecord", "BulkRemoveRecord", "UpdateRecord", "BulkUpdateRecord"):
-      # the user's requested edit: its data columns must be carried by a direct action
-      datacols = [c for c in (a[3].keys() if len(a) > 3 else [])
-                  if c in sch.get(tid, {}) and not sch[tid][c][1] and not sch[tid][c][2]]
-      if (name.endswith("RemoveRecord") or name.endswith("AddRecord") or datacols) and not flag:
-        # reverse-reference / position adjustments of OTHER rows are not the user's request: only
-        # flag when the rows are among the requested rows or newly returned ids
-        rows = a[2] if isinstance(a[2], list) else [a[2]]
-        req_rows = set()
-        for ua, rv in zip(rec["actions"], res.ret):
-          if ua[1] != tid:
-            continue
-          if ua[0] in ("UpdateRecord", "RemoveRecord"):
-            req_rows.add(ua[2])
-          elif ua[0] in ("BulkUpdateRecord", "BulkRemoveRecord"):
-            req_rows.update(ua[2])
-          elif ua[0] == "AddRecord" and isinstance(rv, int):
-            req_rows.add(rv)
-          elif ua[0] == "BulkAddRecord" and isinstance(rv, list):
-            req_rows.update(rv)
-        if set(rows) <= req_rows and req_rows:
-          h._find("C31", "requested record edit on a user table marked non-direct", "%s %s rows %r" % (name, tid, rows), rec)
+  # the requested edits: for every user action that updates / adds / removes given rows of an ordinary
+  # user table, the cells it names must be carried by a DIRECT stored action; it is a violation when
+  # stored actions touch those cells but none of them is direct
+  for ua, rv in zip(rec["actions"], res.ret):
+    kind = ua[0]
+    if kind not in ("UpdateRecord", "BulkUpdateRecord", "AddRecord", "BulkAddRecord", "RemoveRecord", "BulkRemoveRecord"):
+      continue
+    tid = ua[1]
+    if tid in summary_tables or tid.startswith("_grist_") or tid not in sch:
+      continue
+    if kind == "AddRecord":
+      rows, cols = ([rv] if isinstance(rv, int) else []), set(ua[3].keys())
+    elif kind == "BulkAddRecord":
+      rows, cols = (list(rv) if isinstance(rv, list) else []), set(ua[3].keys())
+    elif kind == "UpdateRecord":
+      rows, cols = [ua[2]], set(ua[3].keys())
+    elif kind == "BulkUpdateRecord":
+      rows, cols = list(ua[2]), set(ua[3].keys())
+    elif kind == "RemoveRecord":
+      rows, cols = [ua[2]], None
+    else:
+      rows, cols = list(ua[2]), None
+    rows = [r for r in rows if isinstance(r, int) and r > 0]
+    if not rows:
+      continue
+    fam = "Add" if "Add" in kind else ("Update" if "Update" in kind else "Remove")
+    touching = []
+    for a, flag in zip(res.stored, res.direct):
+      if a[1] != tid or fam not in a[0] or not a[0].endswith("Record"):
+        continue
+      arows = a[2] if isinstance(a[2], list) else [a[2]]
+      if not set(arows) & set(rows):
+        continue
+      if cols is not None and fam == "Update":
+        acols = set(a[3].keys())
+        datac = [c for c in acols & cols if c in sch[tid] and not sch[tid][c][1]]
+        if not datac:
+          continue
+      touching.append(flag)
+    if touching and not any(touching):
+      h._find("C31", "requested record edit on a user table marked non-direct", "%s %s rows %r" % (kind, tid, rows), rec)
   if len(mixed) == 2:
     rec["nontrivial"] = True
 
